@@ -59,6 +59,16 @@ def roles(ctx):
     # validator: crate-local fn (&str) -> Result<(), _> (the error may be a message or an already built io::Error)
     val = [n for n, b in ctx.facts.bodies.items() if b["kind"] == "fn" and b["arg_count"] == 1 and b["locals"][1]["s"] == "&str"
            and b["locals"][0]["s"].startswith("std::result::Result<(), ")]
+    if not val:
+        # ... or Ok(the validated bytes): a fn(&str) -> Result<_, _> that `get` reaches
+        direct = set()
+        for n2, b2 in ctx.facts.bodies.items():
+            if n2 == R["get"] or n2.startswith(R["get"] + "::{closure"):
+                for _, t_ in ctx.facts.calls(b2):
+                    if t_["callee"].get("res_local"):
+                        direct.add(t_["callee"].get("res_path"))
+        val = [n for n, b in ctx.facts.bodies.items() if n in direct and b["kind"] == "fn" and b["arg_count"] == 1 and b["locals"][1]["s"] == "&str"
+               and b["locals"][0]["s"].startswith("std::result::Result<")]
     if len(val) != 1:
         raise FailClosed("path validator (&str -> Result<(), &str>) not found uniquely: %r" % val)
     R["validate"] = val[0]
